@@ -38,6 +38,31 @@ func c09(r *Report) {
 	}
 
 	r.Guard("C09.R1", "the credit returned for a DATA frame is its flow-controlled length (payload plus padding)", func() {
+		// credit is returned for every DATA frame accepted: the call that returns it is
+		// reached from the DATA case whatever the frame contains (a padded frame without
+		// payload still used up window)
+		fc := frameCases(pf)
+		if df := fc["DataFrame"]; df != nil {
+			swuCalls := plainCalls(pf, "(*M/h2.relay).sendWindowUpdates")
+			if len(swuCalls) != 1 {
+				r.Fail("path", "(*M/h2.relay).processFrame: credit returned for every DATA frame", fmt.Sprintf("found %d sendWindowUpdates calls in the dispatcher, want 1", len(swuCalls)), nil, pf.Pos())
+			} else {
+				bad := ""
+				for _, ce := range ctrlEdges(swuCalls[0].Block()) {
+					// the only admissible controlling condition is the type switch itself
+					if ta, isE := ce.If.Cond.(*ssa.Extract); isE {
+						if _, isTA := ta.Tuple.(*ssa.TypeAssert); isTA {
+							continue
+						}
+					}
+					bad = w.Pos(ce.If.Cond.Pos())
+				}
+				r.Decide("path", "(*M/h2.relay).processFrame: credit returned for every DATA frame", bad == "", "sendWindowUpdates depends on nothing but the frame being a DATA frame", "returning credit is skipped under the condition at "+bad+" (e.g. an empty payload): the flow-controlled length of such frames (padding) is never given back and the sender's window leaks away", swuCalls[0].Pos())
+			}
+		} else {
+			r.Undecided("(*M/h2.relay).processFrame: DATA case", "UNRESOLVED")
+		}
+
 		wus := plainCalls(swu, "(*"+pHTTP2+".Framer).WriteWindowUpdate")
 		if len(wus) != 2 {
 			r.Fail("flow", "(*M/h2.relay).sendWindowUpdates: connection and stream credit", fmt.Sprintf("found %d WriteWindowUpdate calls, want 2 (connection and stream)", len(wus)), nil, swu.Pos())
